@@ -10,7 +10,7 @@ What is EXPLORED (this module), with the Lean-verified search as oracle plus an 
   * the lower bound "no non-trivial logical lighter than d" for every code size whose search space fits the
     budget (exhaustive per size: recorded in coverage.explored), on the REAL matrices `code.stabilizers`,
     `code.logicals`. The all-sizes lower bound is now a THEOREM for the planar, toric, rotated-planar and rotated-toric
-    families (`distance_lower_*`, `*_isDistance` in Props/C08.lean); for the colour 6.6.6 family it is explored only.
+    families and for the colour 6.6.6 family (`distance_lower_*`, `*_isDistance` in Props/C08.lean, Props/C08/Color666.lean).
 Tie between model and code: (1) the `d` of `n_k_d` equals the model's `nkd` d for every size up to the bound
 (rectangles, 2xN strips, all parities); (2) the verified search runs on the real matrices: it must find nothing of
 weight < d, must confirm by certificate that the code's own lightest logical has weight exactly d, and (small sizes)
@@ -237,14 +237,13 @@ def run(ctx):
     ctx.assumptions = ['for CSS codes the minimum is attained on an X-only or Z-only operator: theorem css_split '
                        '(hypothesis isCSS checked by the driver on the real matrices)',
                        'sizes beyond the search budget: only the formula tie and the all-sizes theorems '
-                       '(weights, attainment; lower bound for planar / toric / rotated families) apply; the colour 6.6.6 lower bound is not proved',
+                       '(weights, attainment; lower bound for all five families) apply',
                        'normaliser completeness (anticommutes with some logical <=> not in span S) is a theorem for every '
                        'ValidCode (Lemmas/Normaliser.lean); the harness additionally derives the logical basis from the '
                        'stabilizers so that wrong supplied logicals cannot hide a light operator']
     return ctx.finish(RULE, search=search,
-                      explanation='IsDistance (min R C) is a theorem for all sizes of the planar, toric, rotated planar and '
-                                  'rotated toric families and for the basic codes; the colour 6.6.6 lower bound is explored '
-                                  'exhaustively per size with a Lean-verified search on the real matrices')
+                      explanation='IsDistance with d = n_k_d[2] is a theorem for all sizes of all five lattice families and for '
+                                  'the basic codes; the Lean-verified search on the real matrices ties the model to the code')
 
 
 def search(m):
